@@ -6,6 +6,7 @@ from ..core import AnalysisError, unparse, where
 from ..cfg import forward_worlds, path_str, _walk_no_nested
 from ..seq import (check_rdisc, cond_edge_transfer, kill_conds_on_assign,
                    _is_attr_chain, assigned_names)
+from ..dtr0sym import Dtr0Sym
 from ..memseq import (LOC, WEN_KEEP, selectors, label, const_arg,
                       method_cfg)
 
@@ -105,6 +106,7 @@ def _check_read_raw_order(run, mod, Q, fn, cfg, ys, sel):
                 st = st | {"tracker=location"}
         return st
     W = forward_worlds(cfg, transfer, cet)
+    D = Dtr0Sym(cfg, ys, lambda y: label(y, sel))
     reads = [y for y in ys if label(y, sel) == "ReadMemoryLocation"]
     run.floor("read_raw ReadMemoryLocation yields", len(reads), 1)
     for y in reads:
@@ -112,32 +114,16 @@ def _check_read_raw_order(run, mod, Q, fn, cfg, ys, sel):
                W.must(y.node, "dtr1"),
                "ReadMemoryLocation can be reached without DTR1 := bank "
                "address", where(mod, y.node))
-        bad = W.worlds_with(y.node, lambda w: "stale" in w)
-        run.ob("R-MEMR-ORDER", Q + "#tracker-advanced", not bad,
-               "a second read can be issued without advancing the local "
-               "DTR0 tracker (min(dtr0 + 1, 255)) after the previous one: "
-               "%s" % (path_str(W.trace(y.node, bad[0]), 10) if bad else ""),
-               where(mod, y.node))
-        # on every path to the read, either DTR0 was just loaded with the
-        # location (tracker=location) or the tracker equalled the location
-        bad = W.worlds_with(y.node, lambda w: not (
-            ("cond", "location.address == dtr0", True) in w
-            or "tracker=location" in w and "dtr0" in w))
-        run.ob("R-MEMR-ORDER", Q + "#DTR0-selects-location", not bad,
-               "a read is reachable where DTR0 was neither loaded with "
-               "location.address nor known equal to it: %s" % (
-                   path_str(W.trace(y.node, bad[0]), 10) if bad else ""),
-               where(mod, y.node),
-               sample={"rule": "R-MEMR-ORDER", "worlds_at_read": len(
-                   W.at(y.node))})
-    # DTR0 argument is the location address
-    for y in ys:
-        if label(y, sel) == "DTR0":
-            run.ob("R-MEMR-ORDER", Q + "#DTR0-arg",
-                   y.arg(1) is not None and unparse(y.arg(1)) ==
-                   "location.address",
-                   "DTR0 must be loaded with location.address",
-                   where(mod, y.node))
+        us = D.u_at(y.node)
+        run.ob("R-MEMR-ORDER", Q + "#DTR0-selects-location",
+               us == {("location.address", 0)},
+               "at this read the unit's DTR0 is %s on some path, not the "
+               "address of the location being read (DTR0 must be loaded "
+               "with location.address unless the previous read's "
+               "auto-increment already left it there, which the local "
+               "tracker must mirror)" % sorted(us), where(mod, y.node),
+               sample={"rule": "R-MEMR-ORDER", "unit_DTR0_at_read":
+                       sorted(us)})
     # loop covers cls.locations in order; result bytes(result)
     loops = [n for n in cfg.reachable if n.kind == "for"]
     run.ob("R-MEMR-ORDER", Q + "#all-locations",
@@ -347,44 +333,24 @@ def _check_read_all(run, world, mod, Q, fn, cfg, ys, sel):
            start_def == "2 if self.address == 0 else 3",
            "start_address is %s; bank 0 starts at 0x02, other banks at 0x03 "
            "(0x02 is their lock byte)" % start_def, where(mod, fn))
-    # tracker: 1 after LastAddress.read, 3 after the latch write
-    tr_ok = True
-    why = []
-    defs = [(n, unparse(n.ast.value)) for n in cfg.reachable if n.kind ==
-            "stmt" and isinstance(n.ast, ast.Assign) and unparse(
-                n.ast.targets[0]) == "dtr0"]
-    if sorted(v for _, v in defs) != ["1", "3"]:
-        tr_ok = False
-        why.append("tracker definitions %s, expected 1 (after reading "
-                   "location 0) and 3 (after writing location 2)"
-                   % [v for _, v in defs])
-    for n, v in defs:
-        if v == "3":
-            prev = _prev_yields(n, ynode)
-            if not (prev and all(p is not None and label(p, sel).startswith(
-                    "WriteMemoryLocation") for p in prev)):
-                tr_ok = False
-                why.append("dtr0 = 3 is not directly after the latch write")
-        if v == "1":
-            prev = _prev_yields(n, ynode)
-            if not (prev and all(p is not None and label(p, sel) ==
-                                 "from:self.LastAddress.read" for p in prev)):
-                tr_ok = False
-                why.append("dtr0 = 1 is not directly after LastAddress.read")
-    run.ob("R-MEMR-ORDER", Q + "#tracker", tr_ok, "; ".join(why),
-           where(mod, fn))
+    # unit DTR0 at every read == the location the loop is at (symbolic
+    # tracking: 1 after LastAddress.read, +1 per read/write, DTR0 loads)
+    D = Dtr0Sym(cfg, ys, lambda y: label(y, sel), after_from=lambda y: (
+        "1", 0) if label(y, sel) == "from:self.LastAddress.read" else None)
     for y in reads:
-        # first read: DTR0 == start_address established (test or load)
-        bad = W.worlds_with(y.node, lambda w: not (
-            ("cond", "dtr0 == start_address", True) in w or "loaded" in w))
-    loads = [y for y in ys if label(y, sel) == "DTR0" and y.arg(1) is not
-             None and unparse(y.arg(1)) == "start_address"]
-    okl = len(loads) == 1
-    if okl:
-        okl = W.must(loads[0].node, ("cond", "dtr0 == start_address", False))
-    run.ob("R-MEMR-ORDER", Q + "#DTR0-start", okl,
-           "DTR0 := start_address must be issued exactly when the tracker "
-           "differs from it", where(mod, fn))
+        lp = [n for n in cfg.reachable if n.kind == "for" and
+              y.node.id in _loop_ids(n)]
+        want = {(unparse(lp[0].ast.target), 0)} if lp else None
+        us = D.u_at(y.node)
+        run.ob("R-MEMR-ORDER", Q + "#tracker", us == want,
+               "at this read the unit's DTR0 is %s on some path; it must "
+               "equal the location the loop is reading (%s): DTR0 := start "
+               "must be issued exactly when the value left by "
+               "LastAddress.read / the latch write differs from it"
+               % (sorted(us), sorted(want) if want else None),
+               where(mod, y.node),
+               sample={"rule": "R-MEMR-ORDER", "unit_DTR0_at_read":
+                       sorted(us)})
     # read loop: range(start_address, last_address + 1), one append per
     # iteration, no early loop exit on a normal path
     loops = [n for n in cfg.reachable if n.kind == "for" and any(
